@@ -5,6 +5,7 @@ package updog
 func init() {
 	verifHarnesses["HarnessC01Eval"] = HarnessC01Eval
 	verifHarnesses["HarnessC01EvalDeep"] = HarnessC01EvalDeep
+	verifHarnesses["HarnessC01KeyInj"] = HarnessC01KeyInj
 }
 
 var verifC01Leaves = []verifLeaf{{"a", "a0"}, {"a", "a1"}, {"b", "b0"}, {"a", "zz"}, {"q", "x"}}
@@ -49,4 +50,34 @@ func HarnessC01EvalDeep() {
 	d := verifC01Data()
 	x := verifGenExpr(d, verifC01Leaves, 2, 2)
 	verifC01Check(d, x)
+}
+
+// HarnessC01KeyInj: two different (column,value) pairs must not be keyed identically.
+// With the property's exclusion (no NUL byte in column names) assumed this must hold for all
+// strings within the bound; without it the separator ambiguity ("a\x00b","c") vs ("a","b\x00c")
+// is a recorded known finding.
+func HarnessC01KeyInj() {
+	verifAbstractHash(true)
+	excludeNUL := verifBool("columns-without-NUL")
+	maxLen := 2 + verifTier()
+	k1 := verifString("col1", 1+verifChoice("col1len", maxLen))
+	v1 := verifString("val1", verifChoice("val1len", maxLen+1))
+	k2 := verifString("col2", 1+verifChoice("col2len", maxLen))
+	v2 := verifString("val2", verifChoice("val2len", maxLen+1))
+	if excludeNUL {
+		for i := 0; i < len(k1); i++ {
+			verifAssume(k1[i] != 0)
+		}
+		for i := 0; i < len(k2); i++ {
+			verifAssume(k2[i] != 0)
+		}
+	}
+	samePair := verifAnd(verifStrEq(k1, k2), verifStrEq(v1, v2))
+	sameKey := getValueIndex(k1, v1) == getValueIndex(k2, v2)
+	if excludeNUL {
+		verifAssert(verifOr(samePair, !sameKey), "C01: two different (column,value) pairs share one bitmap key")
+	} else {
+		verifAssert(verifOr(samePair, !sameKey), "C01: two different (column,value) pairs share one bitmap key when a column name contains a NUL byte")
+	}
+	verifReach("end")
 }
